@@ -352,6 +352,8 @@ type Plan struct {
 	NewDeposits       int  // user deposits made on the contract before this block (become includable after the eth1 vote passes)
 	VoteNewEth1       bool // vote for the contract's current deposit root/count
 	BadStateRoot      bool
+	// WithholdCurrentEpoch: attestations whose target is the block's own epoch are not included (they arrive in the next epoch: late inclusion)
+	WithholdCurrentEpoch bool
 }
 
 type Built struct {
@@ -449,6 +451,9 @@ func (c *Chain) BuildBlock(slot uint64, plan Plan) (*Built, error) {
 			te := sp.EpochAtSlot(s)
 			if te != epoch && te != sp.PreviousEpoch(pre) {
 				break
+			}
+			if plan.WithholdCurrentEpoch && te == epoch {
+				continue
 			}
 			cps := sp.CommitteeCountPerSlot(scratch, te)
 			for ci := uint64(0); ci < cps; ci++ {
